@@ -264,11 +264,13 @@ pub mod unit {
     }
 
     impl ManifestIdAllocator {
-        pub open spec fn same_except_bucket(&self, f: &Self) -> bool {
-            &&& self.next_proof_id == f.next_proof_id
-            &&& self.next_address_reservation_id == f.next_address_reservation_id
-            &&& self.next_address_id == f.next_address_id
-            &&& self.next_intent_id == f.next_intent_id
+/// `f` is `self` with the five counters advanced by the given amounts
+        pub open spec fn bumped(&self, f: &Self, bucket: int, proof: int, reservation: int, address: int, intent: int) -> bool {
+            &&& f.next_bucket_id == self.next_bucket_id + bucket
+            &&& f.next_proof_id == self.next_proof_id + proof
+            &&& f.next_address_reservation_id == self.next_address_reservation_id + reservation
+            &&& f.next_address_id == self.next_address_id + address
+            &&& f.next_intent_id == self.next_intent_id + intent
         }
 
         /*@fn radix-transactions/src/validation/id_allocator.rs :: impl ManifestIdAllocator :: fn new
@@ -350,6 +352,7 @@ pub mod unit {
                 // exactly that id becomes live, unlocked
                 final(self).bucket_ids@ == old(self).bucket_ids@.insert(ret, 0),
                 !locked(final(self).proof_ids@, ret),
+                old(self).id_allocator.bumped(&final(self).id_allocator, 1, 0, 0, 0, 0),
                 final(self).proof_ids == old(self).proof_ids,
                 old(self).same_addresses(final(self)),
                 old(self).no_resurrection(final(self)),
@@ -393,14 +396,14 @@ pub mod unit {
                         && !old(self).proof_ids@.contains_key(p)
                         && final(self).proof_ids@ == old(self).proof_ids@.insert(p, kind)
                         && final(self).bucket_ids@ == counts_after_new_proof(old(self).bucket_ids@, kind)
-                        && (kind matches ProofKind::BucketProof(b) ==> locked(final(self).proof_ids@, b)),
+                        && (kind matches ProofKind::BucketProof(b) ==> locked(final(self).proof_ids@, b))
+                        && old(self).id_allocator.bumped(&final(self).id_allocator, 0, 1, 0, 0, 0),
                     Err(e) => final(self).proof_ids@ == old(self).proof_ids@
                         && final(self).bucket_ids@ == old(self).bucket_ids@
                         && final(self).id_allocator == old(self).id_allocator
                         && (kind matches ProofKind::BucketProof(b) && e == ManifestIdValidationError::BucketNotFound(b)),
                 },
                 final(self).bucket_ids@.dom() == old(self).bucket_ids@.dom(),
-                final(self).id_allocator.next_bucket_id == old(self).id_allocator.next_bucket_id,
                 old(self).same_addresses(final(self)),
                 old(self).no_resurrection(final(self)),
         @entry
@@ -428,14 +431,14 @@ pub mod unit {
                     Ok(p) => p == ManifestProof(old(self).id_allocator.next_proof_id)
                         && !old(self).proof_ids@.contains_key(p)
                         && final(self).proof_ids@ == old(self).proof_ids@.insert(p, old(self).proof_ids@[*proof_id])
-                        && final(self).bucket_ids@ == counts_after_new_proof(old(self).bucket_ids@, old(self).proof_ids@[*proof_id]),
+                        && final(self).bucket_ids@ == counts_after_new_proof(old(self).bucket_ids@, old(self).proof_ids@[*proof_id])
+                        && old(self).id_allocator.bumped(&final(self).id_allocator, 0, 1, 0, 0, 0),
                     Err(e) => final(self).proof_ids@ == old(self).proof_ids@
                         && final(self).bucket_ids@ == old(self).bucket_ids@
                         && final(self).id_allocator == old(self).id_allocator
                         && e == ManifestIdValidationError::ProofNotFound(*proof_id),
                 },
                 final(self).bucket_ids@.dom() == old(self).bucket_ids@.dom(),
-                final(self).id_allocator.next_bucket_id == old(self).id_allocator.next_bucket_id,
                 old(self).same_addresses(final(self)),
                 old(self).no_resurrection(final(self)),
         @entry
@@ -561,6 +564,7 @@ pub mod unit {
                 ret == ManifestAddressReservation(old(self).id_allocator.next_address_reservation_id),
                 !old(self).address_reservation_ids@.contains(ret),
                 final(self).address_reservation_ids@ == old(self).address_reservation_ids@.insert(ret),
+                old(self).id_allocator.bumped(&final(self).id_allocator, 0, 0, 1, 0, 0),
                 final(self).bucket_ids == old(self).bucket_ids,
                 final(self).proof_ids == old(self).proof_ids,
                 final(self).address_ids == old(self).address_ids,
@@ -599,6 +603,7 @@ pub mod unit {
                 ret == ManifestNamedAddress(old(self).id_allocator.next_address_id),
                 !old(self).address_ids@.contains(ret),
                 final(self).address_ids@ == old(self).address_ids@.insert(ret),
+                old(self).id_allocator.bumped(&final(self).id_allocator, 0, 0, 0, 1, 0),
                 final(self).bucket_ids == old(self).bucket_ids,
                 final(self).proof_ids == old(self).proof_ids,
                 final(self).address_reservation_ids == old(self).address_reservation_ids,
@@ -630,6 +635,7 @@ pub mod unit {
                 ret == ManifestNamedIntent(old(self).id_allocator.next_intent_id),
                 !old(self).intent_ids@.contains(ret),
                 final(self).intent_ids@ == old(self).intent_ids@.insert(ret),
+                old(self).id_allocator.bumped(&final(self).id_allocator, 0, 0, 0, 0, 1),
                 final(self).bucket_ids == old(self).bucket_ids,
                 final(self).proof_ids == old(self).proof_ids,
                 final(self).address_reservation_ids == old(self).address_reservation_ids,
@@ -708,6 +714,7 @@ pub mod unit {
         let q = match v.clone_proof(&p) { Ok(q) => q, Err(_) => { assert(false); return; } };
         assert(p != q);
         // locked while either proof is live
+        proof { assert(v.proof_ids@.contains_key(p) && v.proof_ids@[p] == ProofKind::BucketProof(b)); }
         let r = v.drop_bucket(&b);
         assert(r == Err::<(), _>(ManifestIdValidationError::BucketLocked(b)));
         let r = v.drop_proof(&p);
